@@ -174,7 +174,7 @@ pub fn check(c: &Case) -> Outcome {
                 let ya = a.y.last().unwrap();
                 let yb: Vec<f64> = b.y.last().unwrap().iter().map(|v| v / sc).collect();
                 let ymax = a.y.iter().fold(0.0f64, |m, y| m.max(inf_norm(y)));
-                let bound = 40.0 * prob.kappa() * (a.naccpt.max(b.naccpt) as f64) * (c.atol + c.rtol * ymax) + 1e-11 * (1.0 + ymax);
+                let bound = 2.0 * crate::props::c01::C_BOUND * prob.kappa() * (a.naccpt.max(b.naccpt) as f64) * (c.atol + c.rtol * ymax) + 1e-11 * (1.0 + ymax);
                 if max_abs_diff(ya, &yb) > bound {
                     return Outcome::viol(format!("{}: (FD Jacobian) final states of the problem and its 2^{} scaling differ by {:e} > {:e}", name, k, max_abs_diff(ya, &yb), bound));
                 }
@@ -249,7 +249,7 @@ pub fn check(c: &Case) -> Outcome {
                     return Outcome::viol(format!("{}: {} copies change the number of accepted steps from {} to {}", name, m, a.naccpt, b.naccpt));
                 }
                 let ymax = a.y.iter().fold(0.0f64, |mm, y| mm.max(inf_norm(y)));
-                let bound = 40.0 * prob.kappa() * (a.naccpt.max(b.naccpt) as f64) * (c.atol + c.rtol * ymax) + 1e-11 * (1.0 + ymax);
+                let bound = 2.0 * crate::props::c01::C_BOUND * prob.kappa() * (a.naccpt.max(b.naccpt) as f64) * (c.atol + c.rtol * ymax) + 1e-11 * (1.0 + ymax);
                 let d = max_abs_diff(a.y.last().unwrap(), &b.y.last().unwrap()[..n]);
                 if d > bound {
                     return Outcome::viol(format!("{}: {} copies change the final state by {:e} > {:e}", name, m, d, bound));
